@@ -160,9 +160,12 @@ structure Cand where
   info : CPath         -- canonical T/info
   kind : String        -- "home" | "top" | "alt" | "custom" | "fallback"
   parentOk : Bool      -- for "top": $topdir/.Trash is a sticky, non-symlink directory (as lstat/stat saw it before)
+  blocked : Bool := false  -- a symbolic link that does not resolve stands on the way to T, T/files or T/info (as the
+                           -- kernel saw the path strings before): no mkdir can create anything through it
 deriving Repr
 
 def usable (fs : FS) (c : Cand) : Bool :=
+  !c.blocked &&
   creatable fs (c.dir.length + 2) c.dir && creatable fs (c.files.length + 2) c.files && creatable fs (c.info.length + 2) c.info
 
 /-- the spec's choice among the ordered candidates for a file whose parent lives on device `d` -/
